@@ -53,8 +53,11 @@ Apply(mm, e) ==
              [mm EXCEPT !.conns = [@ EXCEPT ![e.c] = [@ EXCEPT !.before = @ + 1]]]
       [] e.ev = "handler_start" ->
              [mm EXCEPT !.conns = [@ EXCEPT ![e.c] = [@ EXCEPT !.started = @ + 1, !.inflight = TRUE, !.cancelled = FALSE]]]
-      [] e.ev = "handler_end" ->
-             [mm EXCEPT !.conns = [@ EXCEPT ![e.c] = [@ EXCEPT !.ended = @ + 1, !.inflight = FALSE, !.lastEnd = e.t]]]
+      [] e.ev = "handler_end" ->    \* (a handler that swallowed its cancellation and returns later cannot
+                                    \*  have its response delivered: it is not counted as "ended in time")
+             [mm EXCEPT !.conns = [@ EXCEPT ![e.c] =
+                                     [@ EXCEPT !.ended = IF mm.conns[e.c].cancelled THEN @ ELSE @ + 1,
+                                               !.inflight = FALSE, !.lastEnd = e.t]]]
       [] e.ev = "handler_abort" ->
              [mm EXCEPT !.conns = [@ EXCEPT ![e.c] = [@ EXCEPT !.inflight = FALSE]]]
       [] e.ev = "handler_cancel" ->
